@@ -117,6 +117,47 @@ pub fn run(tier: &str, seed: u64, out: &mut Out) {
         if with_random { ops.extend_from_slice(&["random", "prf", "prf", "dup"]); }
         let cfg = GenCfg { n_inputs: 1 + rng.below(3) as usize, n_ops: 4 + rng.below(14) as usize, scalar_types: vec![st, st, UINT64, BIT], ops, small: true };
         let p = gen_program(&mut rng, &cfg);
+        run_one(&p, i, &mut rng, out);
+    }
+    // network-send markers directly on getter / conversion nodes that the meta-operation pass
+    // resolves through a proxy (the marker must survive on the node the original is mapped to)
+    let n_dir = match tier { "thorough" => 60, "search" => 200, _ => 12 };
+    for i in 0..n_dir {
+        let p = getter_marker_program(&mut rng, i);
+        out.stat("stream:marker-on-getter");
+        run_one(&p, 100000 + i, &mut rng, out);
+    }
+}
+
+/// x, y inputs; a getter or conversion of a freshly built container, annotated Send, feeds the output
+fn getter_marker_program(rng: &mut Rng, variant: usize) -> Prog {
+    use ciphercore_base::graphs::{create_context, NodeAnnotation};
+    let ctx = create_context().unwrap();
+    let g = ctx.create_graph().unwrap();
+    let st = *rng.pick(&[UINT8, INT32, UINT64, INT64]);
+    let t = array_type(vec![1 + rng.below(3)], st);
+    let x = g.input(t.clone()).unwrap();
+    let y = g.input(t.clone()).unwrap();
+    let s = x.add(y.clone()).unwrap();
+    let marked = match variant % 5 {
+        0 => g.create_tuple(vec![s.clone(), y.clone()]).unwrap().tuple_get(0).unwrap(),
+        1 => { let i1 = g.constant(scalar_type(UINT64), Value::from_scalar(1u64, UINT64).unwrap()).unwrap(); g.create_vector(t.clone(), vec![y.clone(), s.clone()]).unwrap().vector_get(i1).unwrap() }
+        2 => g.create_named_tuple(vec![("a".to_owned(), y.clone()), ("b".to_owned(), s.clone())]).unwrap().named_tuple_get("b".to_owned()).unwrap(),
+        3 => s.a2b().unwrap().b2a(st).unwrap(),
+        _ => { let i0 = g.constant(scalar_type(UINT64), Value::from_scalar(0u64, UINT64).unwrap()).unwrap(); g.create_vector(t.clone(), vec![s.clone(), y.clone()]).unwrap().vector_get(i0).unwrap() }
+    };
+    let (a, b) = (rng.below(3), rng.below(3));
+    marked.add_annotation(NodeAnnotation::Send(a, (a + 1 + b % 2) % 3)).unwrap();
+    let o = marked.multiply(x).unwrap();
+    g.set_output_node(o).unwrap();
+    g.finalize().unwrap();
+    ctx.set_main_graph(g.clone()).unwrap();
+    ctx.finalize().unwrap();
+    Prog { ctx, g, input_types: vec![t.clone(), t], attempts: vec![] }
+}
+
+fn run_one(p: &Prog, i: usize, rng: &mut Rng, out: &mut Out) {
+    {
         let ops_desc: Vec<String> = p.g.get_nodes().iter().map(|n| op_name(&n.get_operation())).collect();
         for o in ops_desc.iter() { out.stat(&format!("op:{}", o)); }
         let desc = json!({"ops": ops_desc, "input_types": p.input_types.iter().map(|t| format!("{}", t)).collect::<Vec<_>>(), "index": i});
@@ -140,14 +181,14 @@ pub fn run(tier: &str, seed: u64, out: &mut Out) {
             Outcome::Ok(mc) => {
                 let ng = mc.get_context().get_main_graph().unwrap();
                 for _ in 0..2 {
-                    let inputs: Vec<Value> = p.input_types.iter().map(|t| gen_value(t, &mut rng)).collect();
-                    oracle(&p.g, &ng, &mc.mappings, &inputs, &mut rng, out, &desc);
+                    let inputs: Vec<Value> = p.input_types.iter().map(|t| gen_value(t, rng)).collect();
+                    oracle(&p.g, &ng, &mc.mappings, &inputs, rng, out, &desc);
                 }
             }
             Outcome::Panic => out.violation("optimizer-panics", desc.clone(), "optimize_context panicked on a well-typed inlined context".into()),
             Outcome::Err => {
                 // an Err is legitimate only if evaluation of the original also fails for the folded constants
-                let inputs: Vec<Value> = p.input_types.iter().map(|t| gen_value(t, &mut rng)).collect();
+                let inputs: Vec<Value> = p.input_types.iter().map(|t| gen_value(t, rng)).collect();
                 let vals = eval_all(&p.g, &inputs, [7u8; 16]);
                 if vals.iter().all(|v| matches!(v, Outcome::Ok(_))) { out.violation("optimizer-rejects-evaluable-graph", desc.clone(), "optimize_context returned Err but the graph evaluates".into()); } else { out.oracle_ok(); }
             }
